@@ -13,7 +13,7 @@ Emitted into coq/Gen/Generated.v:
 """
 import ast
 
-from vh.translate import TranslateError, _parse, _class, _func, coq_string, coq_strings
+from vh.translate import TranslateError, _parse, _class, _func, coq_string, coq_strings, coq_Z
 
 REL = 'katdal/dataset.py'
 GROUPS = ('time_selectors', 'freq_selectors', 'corrprod_selectors')
@@ -243,4 +243,489 @@ def item_select_tables(repo, out):
                % '; '.join('(%s, %s)' % (coq_strings(ks), coq_string(a)) for ks, a in loop_rows))
 
 
-ITEMS = [item_select_tables]
+
+
+# ---------------------------------------------------------------------------------------------------------------
+# item_select_decisions: the decision code of DataSet.select outside the keyword tables - range checks of spw /
+# subarray, what a change of spw / subarray resets, the time base mask, every branch of the re-application loop,
+# the derivation of the public attributes, and the helpers _selection_to_list / _is_deselection.
+#
+# Each piece of code must match a TEMPLATE (Python source with holes) exactly, statement by statement; the holes
+# bind constants and operators that are emitted into Generated.v and used by Model/SelectX.v and its theorems:
+#   __K_name__                         any literal constant                      -> binds name to its value
+#   __cmp__('name', a, b)              a <op> b, one comparison operator         -> binds name to the ast class name
+#   __chain__('name', a, b, c)         a <op1> b <op2> c                         -> binds name to (op1, op2)
+#   __bool__('name', a, b)             a and b / a or b                          -> 'And' / 'Or'
+#   __bin__('name', a, b)              a + b, a - b, ...                         -> 'Add', 'Sub', ...
+#   __ANY__                            any expression (used for exception messages only)
+
+class _Holes(dict):
+    def bind(self, name, value, where):
+        if name in self and self[name] != value:
+            raise TranslateError('%s: hole %s bound twice with different values' % (where, name))
+        self[name] = value
+
+
+def _hole_call(t):
+    if isinstance(t, ast.Call) and isinstance(t.func, ast.Name) and t.func.id in ('__cmp__', '__chain__', '__bool__', '__bin__'):
+        return t.func.id
+    return None
+
+
+def _unify(node, tmpl, holes, where):
+    """Structural equality of two ast nodes up to the holes of the template."""
+    if isinstance(tmpl, ast.Name) and tmpl.id == '__ANY__':
+        if not isinstance(node, ast.expr):
+            raise TranslateError('%s: expression expected' % where)
+        return
+    if isinstance(tmpl, ast.Name) and tmpl.id.startswith('__K_') and tmpl.id.endswith('__'):
+        if not (isinstance(node, ast.Constant) and isinstance(node.value, (int, float, str, bool))):
+            raise TranslateError('%s: literal constant expected for %s, found %s' % (where, tmpl.id, ast.dump(node)[:80]))
+        holes.bind(tmpl.id[4:-2], node.value, where)
+        return
+    hc = _hole_call(tmpl)
+    if hc:
+        name = tmpl.args[0].value
+        if hc == '__cmp__':
+            if not (isinstance(node, ast.Compare) and len(node.ops) == 1):
+                raise TranslateError('%s: single comparison expected for %s' % (where, name))
+            holes.bind(name, type(node.ops[0]).__name__, where)
+            _unify(node.left, tmpl.args[1], holes, where)
+            _unify(node.comparators[0], tmpl.args[2], holes, where)
+        elif hc == '__chain__':
+            if not (isinstance(node, ast.Compare) and len(node.ops) == 2):
+                raise TranslateError('%s: chained comparison expected for %s' % (where, name))
+            holes.bind(name, (type(node.ops[0]).__name__, type(node.ops[1]).__name__), where)
+            _unify(node.left, tmpl.args[1], holes, where)
+            _unify(node.comparators[0], tmpl.args[2], holes, where)
+            _unify(node.comparators[1], tmpl.args[3], holes, where)
+        elif hc == '__bool__':
+            if not (isinstance(node, ast.BoolOp) and len(node.values) == 2):
+                raise TranslateError('%s: binary and / or expected for %s' % (where, name))
+            holes.bind(name, type(node.op).__name__, where)
+            _unify(node.values[0], tmpl.args[1], holes, where)
+            _unify(node.values[1], tmpl.args[2], holes, where)
+        else:
+            if not isinstance(node, ast.BinOp):
+                raise TranslateError('%s: binary operation expected for %s' % (where, name))
+            holes.bind(name, type(node.op).__name__, where)
+            _unify(node.left, tmpl.args[1], holes, where)
+            _unify(node.right, tmpl.args[2], holes, where)
+        return
+    if type(node) is not type(tmpl):
+        raise TranslateError('%s: expected %s, found %s (%s)' % (where, type(tmpl).__name__, type(node).__name__,
+                                                                ast.dump(node)[:100] if isinstance(node, ast.AST) else node))
+    if isinstance(tmpl, ast.AST):
+        for f in tmpl._fields:
+            if f in ('ctx', 'type_comment', 'kind'):
+                continue
+            _unify(getattr(node, f, None), getattr(tmpl, f, None), holes, '%s.%s' % (where, f))
+    elif isinstance(tmpl, list):
+        if len(node) != len(tmpl):
+            raise TranslateError('%s: %d element(s) expected, found %d' % (where, len(tmpl), len(node)))
+        for i, (a, b) in enumerate(zip(node, tmpl)):
+            _unify(a, b, holes, '%s[%d]' % (where, i))
+    elif node != tmpl:
+        raise TranslateError('%s: expected %r, found %r' % (where, tmpl, node))
+
+
+def _match_stmts(stmts, template_src, holes, where):
+    import textwrap
+    tmpl = ast.parse(textwrap.dedent(template_src)).body
+    _unify(list(stmts), tmpl, holes, where)
+
+
+def _nodoc(body):
+    return [n for n in body if not (isinstance(n, ast.Expr) and isinstance(n.value, ast.Constant)
+                                    and isinstance(n.value.value, str))]
+
+
+T_RANGE = """
+kwargs['spw'] = spw = kwargs.get('spw', self.spw)
+if not __chain__('spw_range', __K_spw_lo__, spw, len(self.spectral_windows)):
+    raise IndexError(__ANY__)
+kwargs['subarray'] = subarray = kwargs.get('subarray', self.subarray)
+if not __chain__('sub_range', __K_sub_lo__, subarray, len(self.subarrays)):
+    raise IndexError(__ANY__)
+"""
+T_CHANGE = """
+if __cmp__('spw_change', spw, self.spw):
+    reset += __K_spw_letters__
+    self.spw = spw
+if __cmp__('sub_change', subarray, self.subarray):
+    reset += __K_sub_letters__
+    self.subarray = subarray
+if 'T' in reset:
+    self._time_keep[:] = True
+    self._time_keep &= __cmp__('tb_spw', self.sensor.get(__K_tb_spw_sensor__), spw)
+    self._time_keep &= __cmp__('tb_sub', self.sensor.get(__K_tb_sub_sensor__), subarray)
+    for key in time_selectors:
+        self._selection.pop(key, None)
+if 'F' in reset:
+    self._freq_keep = np.ones(self.spectral_windows[self.spw].num_chans, dtype=bool)
+    for key in freq_selectors:
+        self._selection.pop(key, None)
+if 'B' in reset:
+    self._corrprod_keep = np.ones(len(self.subarrays[self.subarray].corr_products), dtype=bool)
+    for key in corrprod_selectors:
+        self._selection.pop(key, None)
+self._selection.update(kwargs)
+"""
+# the branches of the re-application loop, in source order: (keys, template of the branch body)
+T_BRANCHES = [
+    (['dumps'], """
+if np.asarray(v).dtype == bool:
+    self._time_keep &= v
+else:
+    dump_keep = np.zeros(len(self._time_keep), dtype=bool)
+    dump_keep[list(v) if isinstance(v, tuple) else v] = True
+    self._time_keep &= dump_keep
+"""),
+    (['timerange'], """
+start_time = __bin__('tr_lo_sign', katpoint.Timestamp(v[__K_tr_lo_index__]).secs, __K_tr_lo_factor__ * self.dump_period)
+end_time = __bin__('tr_hi_sign', katpoint.Timestamp(v[__K_tr_hi_index__]).secs, __K_tr_hi_factor__ * self.dump_period)
+self._time_keep &= __cmp__('tr_lo_cmp', self.sensor.timestamps[:], start_time)
+self._time_keep &= __cmp__('tr_hi_cmp', self.sensor.timestamps[:], end_time)
+"""),
+    (['scans', 'compscans'], """
+scans = _selection_to_list(v)
+scan_keep = np.zeros(len(self._time_keep), dtype=bool)
+scan_sensor = self.sensor.get('Observation/scan_state' if k == 'scans' else 'Observation/label')
+scan_index_sensor = self.sensor.get(f'Observation/{k[:-1]}_index')
+for scan in scans:
+    if isinstance(scan, numbers.Integral):
+        scan_keep |= (scan_index_sensor == scan)
+    elif __cmp__('scan_neg_cmp', scan[0], __K_scan_neg_char__):
+        scan_keep |= ~(scan_sensor == scan[1:])
+    else:
+        scan_keep |= (scan_sensor == scan)
+self._time_keep &= scan_keep
+"""),
+    (['targets'], """
+targets = v if is_iterable(v) else [v]
+target_indices = []
+for t in targets:
+    try:
+        if isinstance(t, numbers.Integral):
+            target_indices.append(t)
+        elif isinstance(t, katpoint.Target) or isinstance(t, str) and ',' in t:
+            target_indices.append(self.catalogue.targets.index(t))
+        else:
+            targets_with_name = self.catalogue._targets_with_name(t)
+            if not targets_with_name:
+                raise KeyError(__ANY__)
+            for t2 in targets_with_name:
+                target_indices.append(self.catalogue.targets.index(t2))
+    except (KeyError, ValueError):
+        logger.warning(__ANY__, t)
+        continue
+target_keep = np.zeros(len(self._time_keep), dtype=bool)
+target_index_sensor = self.sensor.get('Observation/target_index')
+for target_index in set(target_indices):
+    target_keep |= (target_index_sensor == target_index)
+self._time_keep &= target_keep
+"""),
+    (['target_tags'], """
+selected_tags = _selection_to_list(v)
+known_tags = {tag for target in self.catalogue.targets for tag in target.tags}
+tags = []
+for tag in selected_tags:
+    if tag in known_tags:
+        tags.append(tag)
+    else:
+        logger.warning(__ANY__, tag)
+target_keep = np.zeros(len(self._time_keep), dtype=bool)
+target_index_sensor = self.sensor.get('Observation/target_index')
+for target_index, target in enumerate(self.catalogue.targets):
+    if set(target.tags) & set(tags):
+        target_keep |= (target_index_sensor == target_index)
+self._time_keep &= target_keep
+"""),
+    (['channels'], """
+if np.asarray(v).dtype == bool:
+    self._freq_keep &= v
+else:
+    chan_keep = np.zeros(len(self._freq_keep), dtype=bool)
+    chan_keep[list(v) if isinstance(v, tuple) else v] = True
+    self._freq_keep &= chan_keep
+"""),
+    (['freqrange'], """
+start_freq = __bin__('fr_lo_sign', v[__K_fr_lo_index__], __K_fr_lo_factor__ * self.spectral_windows[self.spw].channel_width)
+end_freq = __bin__('fr_hi_sign', v[__K_fr_hi_index__], __K_fr_hi_factor__ * self.spectral_windows[self.spw].channel_width)
+self._freq_keep &= __cmp__('fr_lo_cmp', self.spectral_windows[self.spw].channel_freqs, start_freq)
+self._freq_keep &= __cmp__('fr_hi_cmp', self.spectral_windows[self.spw].channel_freqs, end_freq)
+"""),
+    (['corrprods'], """
+if isinstance(v, str) and v == 'auto':
+    self._corrprod_keep &= [__cmp__('auto_cmp', inpA[:-1], inpB[:-1])
+                            for inpA, inpB in self.subarrays[self.subarray].corr_products]
+elif isinstance(v, str) and v == 'cross':
+    self._corrprod_keep &= [__cmp__('cross_cmp', inpA[:-1], inpB[:-1])
+                            for inpA, inpB in self.subarrays[self.subarray].corr_products]
+else:
+    if not isinstance(v, slice):
+        v = np.asarray(v)
+        if v.ndim == 2 and v.shape[1] == 2:
+            all_corrprods = self.subarrays[self.subarray].corr_products
+            v = v.tolist()
+            v = np.array([list(cp) in v for cp in all_corrprods])
+        elif not v.size and v.dtype != bool:
+            v = v.astype(int)
+    if not isinstance(v, slice) and v.dtype == bool:
+        self._corrprod_keep &= v
+    else:
+        cp_keep = np.zeros(len(self._corrprod_keep), dtype=bool)
+        cp_keep[v] = True
+        self._corrprod_keep &= cp_keep
+"""),
+    (['ants'], """
+ants = _selection_to_list(v)
+ant_names = [(ant.name if isinstance(ant, katpoint.Antenna) else ant) for ant in ants]
+if _is_deselection(ant_names):
+    ant_names = [ant_name[1:] for ant_name in ant_names]
+    self._corrprod_keep &= [__bool__('ants_desel_bool', __cmp__('ants_desel_a', inpA[:-1], ant_names),
+                                     __cmp__('ants_desel_b', inpB[:-1], ant_names))
+                            for inpA, inpB in self.subarrays[self.subarray].corr_products]
+else:
+    self._corrprod_keep &= [__bool__('ants_sel_bool', __cmp__('ants_sel_a', inpA[:-1], ant_names),
+                                     __cmp__('ants_sel_b', inpB[:-1], ant_names))
+                            for inpA, inpB in self.subarrays[self.subarray].corr_products]
+"""),
+    (['inputs'], """
+inps = _selection_to_list(v)
+self._corrprod_keep &= [__bool__('inputs_bool', __cmp__('inputs_a', inpA, inps), __cmp__('inputs_b', inpB, inps))
+                        for inpA, inpB in self.subarrays[self.subarray].corr_products]
+"""),
+    (['pol'], """
+pols = _selection_to_list(v)
+pols = [i.lower() for i in pols if i]
+if __cmp__('pol_nonempty_cmp', len(pols), __K_pol_nonempty_bound__):
+    keep = np.zeros(self._corrprod_keep.shape, dtype=bool)
+    for polAB in pols:
+        polAB = polAB * __K_pol_repeat__ if polAB in (__K_pol_single_a__, __K_pol_single_b__) else polAB
+        keep |= [__bool__('pol_bool', __cmp__('pol_a_cmp', inpA[-1], polAB[__K_pol_a_index__]),
+                          __cmp__('pol_b_cmp', inpB[-1], polAB[__K_pol_b_index__]))
+                 for inpA, inpB in self.subarrays[self.subarray].corr_products]
+    self._corrprod_keep &= keep
+"""),
+    (['weights'], """
+self._weights_keep = v
+"""),
+    (['flags'], """
+self._flags_keep = v
+"""),
+]
+T_TAIL = """
+self.shape = (self._time_keep.sum(), self._freq_keep.sum(), self._corrprod_keep.sum())
+self.size = np.prod(self.shape, dtype=np.int64) * np.dtype('complex64').itemsize
+if not self.size:
+    logger.warning(__ANY__)
+self.dumps = self._time_keep.nonzero()[0]
+self.channels = self._freq_keep.nonzero()[0]
+self.freqs = self.channel_freqs = self.spectral_windows[self.spw].channel_freqs[self._freq_keep]
+self.channel_width = self.spectral_windows[self.spw].channel_width
+self.corr_products = self.subarrays[self.subarray].corr_products[self._corrprod_keep]
+self.inputs = sorted(set(np.ravel(self.corr_products)))
+input_ants = {inp[:-1] for inp in self.inputs}
+self.ants = [ant for ant in self.subarrays[self.subarray].ants if ant.name in input_ants]
+self._set_keep(self._time_keep, self._freq_keep, self._corrprod_keep, self._weights_keep, self._flags_keep)
+self.scan_indices = sorted(set(self.sensor['Observation/scan_index']))
+self.compscan_indices = sorted(set(self.sensor['Observation/compscan_index']))
+self.target_indices = sorted(set(self.sensor['Observation/target_index']))
+"""
+T_SEL_TO_LIST = """
+if isinstance(names, str):
+    if not names:
+        return []
+    elif names in groups:
+        return list(groups[names])
+    else:
+        return [name.strip() for name in names.split(__K_list_sep__)]
+elif is_iterable(names):
+    return list(names)
+else:
+    return [names]
+"""
+T_IS_DESEL = """
+for selector in selectors:
+    if __cmp__('desel_cmp', selector[0], __K_desel_char__):
+        return False
+return True
+"""
+T_SET_KEEP = """
+if time_keep is not None:
+    self._time_keep = time_keep
+    if self.sensor:
+        self.sensor._set_keep(self._time_keep)
+if freq_keep is not None:
+    self._freq_keep = freq_keep
+if corrprod_keep is not None:
+    self._corrprod_keep = corrprod_keep
+if weights_keep is not None:
+    self._weights_keep = weights_keep
+if flags_keep is not None:
+    self._flags_keep = flags_keep
+"""
+
+
+def _frac(x, what):
+    from fractions import Fraction
+    if isinstance(x, bool) or not isinstance(x, (int, float)):
+        raise TranslateError('%s: number expected' % what)
+    f = Fraction(x)
+    if f.denominator > 1 << 20:
+        raise TranslateError('%s: %r is not a small dyadic fraction' % (what, x))
+    return f.numerator, f.denominator
+
+
+def _char(s, what):
+    if not (isinstance(s, str) and len(s) == 1 and ord(s) < 128):
+        raise TranslateError('%s: single ASCII character expected, found %r' % (what, s))
+    return ord(s)
+
+
+def _int(x, what):
+    if isinstance(x, bool) or not isinstance(x, int):
+        raise TranslateError('%s: integer literal expected, found %r' % (what, x))
+    return x
+
+
+def _funcdef_module(tree, name):
+    found = [n for n in tree.body if isinstance(n, ast.FunctionDef) and n.name == name]
+    if len(found) != 1:
+        raise TranslateError('%s: module-level function %s not found exactly once' % (REL, name))
+    return found[0]
+
+
+def item_select_decisions(repo, out):
+    tree = _parse(repo, REL)
+    cls = _class(tree, 'DataSet', REL)
+    fn = _func(cls, 'select', REL)
+    a = fn.args
+    if a.args and [x.arg for x in a.args] != ['self'] or a.vararg or a.kwonlyargs or not a.kwarg or a.kwarg.arg != 'kwargs':
+        raise TranslateError('select: signature is not select(self, **kwargs)')
+    body = _nodoc(fn.body)
+    h = _Holes()
+
+    def find(pred, what):
+        idx = [i for i, n in enumerate(body) if pred(n)]
+        if len(idx) != 1:
+            raise TranslateError('select: %s not found exactly once' % what)
+        return idx[0]
+
+    def assigns(n, name):
+        return isinstance(n, ast.Assign) and any(_is_name(t, name) for t in n.targets)
+    i_reset = find(lambda n: assigns(n, 'reset'), 'reset = ...')
+    i_auto = find(lambda n: isinstance(n, ast.If) and isinstance(n.test, ast.Compare) and _is_name(n.test.left, 'reset')
+                  and isinstance(n.test.ops[0], ast.Eq), "if reset == 'auto'")
+    i_loop = find(lambda n: isinstance(n, ast.For) and ast.dump(n.iter) == ast.dump(ast.parse('self._selection.items()', mode='eval').body),
+                  're-application loop')
+    # statements between `reset = ...` and the auto block: the spw / subarray range checks
+    _match_stmts(body[i_reset + 1:i_auto], T_RANGE, h, 'select/range checks')
+    # statements between the auto block and the loop: spw / subarray change, the three reset blocks, update
+    _match_stmts(body[i_auto + 1:i_loop], T_CHANGE, h, 'select/reset blocks')
+    # the loop: one if / elif chain, each branch matches its template
+    loop = body[i_loop]
+    if len(loop.body) != 1 or not isinstance(loop.body[0], ast.If) or loop.orelse:
+        raise TranslateError('select: the re-application loop is not a single if / elif chain')
+    node = loop.body[0]
+    for n, (keys, tsrc) in enumerate(T_BRANCHES):
+        t = node.test
+        if len(keys) == 1:
+            want = ast.parse('k == %r' % keys[0], mode='eval').body
+        else:
+            want = ast.parse('k in %r' % (tuple(keys),), mode='eval').body
+        _unify(t, want, h, 'select/loop branch %d test' % n)
+        _match_stmts(node.body, tsrc, h, 'select/loop branch %s' % '/'.join(keys))
+        last = n == len(T_BRANCHES) - 1
+        if last:
+            if node.orelse:
+                raise TranslateError('select: the loop chain has an extra branch after flags')
+        else:
+            if not (len(node.orelse) == 1 and isinstance(node.orelse[0], ast.If)):
+                raise TranslateError('select: the loop chain ends after %s' % keys)
+            node = node.orelse[0]
+    # the tail: public attributes derived from the masks
+    _match_stmts(body[i_loop + 1:], T_TAIL, h, 'select/derived attributes')
+    sk = _func(cls, '_set_keep', REL)
+    if ([x.arg for x in sk.args.args] != ['self', 'time_keep', 'freq_keep', 'corrprod_keep', 'weights_keep', 'flags_keep']
+            or len(sk.args.defaults) != 5
+            or not all(isinstance(x, ast.Constant) and x.value is None for x in sk.args.defaults)):
+        raise TranslateError('DataSet._set_keep: signature is not (self, time_keep=None, freq_keep=None, corrprod_keep=None, '
+                             'weights_keep=None, flags_keep=None)')
+    _match_stmts(_nodoc(sk.body), T_SET_KEEP, h, 'DataSet._set_keep')
+    # helpers
+    f1 = _funcdef_module(tree, '_selection_to_list')
+    if [x.arg for x in f1.args.args] != ['names'] or not f1.args.kwarg or f1.args.kwarg.arg != 'groups':
+        raise TranslateError('_selection_to_list: signature is not (names, **groups)')
+    _match_stmts(_nodoc(f1.body), T_SEL_TO_LIST, h, '_selection_to_list')
+    f2 = _funcdef_module(tree, '_is_deselection')
+    if [x.arg for x in f2.args.args] != ['selectors']:
+        raise TranslateError('_is_deselection: signature is not (selectors)')
+    _match_stmts(_nodoc(f2.body), T_IS_DESEL, h, '_is_deselection')
+    # the constructor's initial attribute values used by the model of the first select(spw=0, subarray=0)
+    init = _func(cls, '__init__', REL)
+    inits = {}
+    for n in init.body:
+        if isinstance(n, ast.Assign) and len(n.targets) == 1 and _self_attr(n.targets[0]) in ('spw', 'subarray', '_weights_keep', '_flags_keep'):
+            nm = _self_attr(n.targets[0])
+            if nm in inits:
+                raise TranslateError('DataSet.__init__: %s assigned twice' % nm)
+            v = n.value
+            if isinstance(v, ast.UnaryOp) and isinstance(v.op, ast.USub) and isinstance(v.operand, ast.Constant):
+                inits[nm] = -v.operand.value
+            elif isinstance(v, ast.Constant):
+                inits[nm] = v.value
+            else:
+                raise TranslateError('DataSet.__init__: %s is not initialised with a literal' % nm)
+    if sorted(inits) != ['_flags_keep', '_weights_keep', 'spw', 'subarray']:
+        raise TranslateError('DataSet.__init__: initial spw / subarray / _weights_keep / _flags_keep not found')
+    if inits['_weights_keep'] != 'all' or inits['_flags_keep'] != 'all':
+        raise TranslateError("DataSet.__init__: _weights_keep / _flags_keep do not start as 'all'")
+
+    def rng(name):
+        lo = _int(h[name[:3] + '_lo'], name)
+        return '(%s, (%s, %s))' % (coq_Z(lo), coq_string(h[name][0]), coq_string(h[name][1]))
+    out.append('Definition sel_spw_range : Z * (string * string) := %s.' % rng('spw_range'))
+    out.append('Definition sel_sub_range : Z * (string * string) := %s.' % rng('sub_range'))
+    for nm in ('spw', 'sub'):
+        letters = h[nm + '_letters']
+        if not isinstance(letters, str):
+            raise TranslateError('select: reset += <string> expected on a change of %s' % nm)
+        out.append('Definition sel_%s_change : string * string := (%s, %s).' % (nm, coq_string(h[nm + '_change']), coq_string(letters)))
+    out.append('Definition sel_init_spw : Z := %s.' % coq_Z(_int(inits['spw'], 'initial spw')))
+    out.append('Definition sel_init_sub : Z := %s.' % coq_Z(_int(inits['subarray'], 'initial subarray')))
+    out.append('Definition sel_time_base : list (string * (string * string)) := [(%s, (%s, %s)); (%s, (%s, %s))].'
+               % (coq_string(h['tb_spw_sensor']), coq_string(h['tb_spw']), coq_string('spw'),
+                  coq_string(h['tb_sub_sensor']), coq_string(h['tb_sub']), coq_string('subarray')))
+    for pre, nm in (('tr', 'timerange'), ('fr', 'freqrange')):
+        rows = []
+        for side in ('lo', 'hi'):
+            num, den = _frac(h['%s_%s_factor' % (pre, side)], nm)
+            rows.append('(%s, (%s, ((%s, %s), %s)))' % (coq_Z(_int(h['%s_%s_index' % (pre, side)], nm)),
+                                                         coq_string(h['%s_%s_sign' % (pre, side)]), coq_Z(num), coq_Z(den),
+                                                         coq_string(h['%s_%s_cmp' % (pre, side)])))
+        out.append('Definition sel_%s : list (Z * (string * ((Z * Z) * string))) := [%s].' % (nm, '; '.join(rows)))
+    out.append('Definition sel_scan_negation : string * Z := (%s, %s).'
+               % (coq_string(h['scan_neg_cmp']), coq_Z(_char(h['scan_neg_char'], 'scan negation'))))
+    out.append('Definition sel_deselection : string * Z := (%s, %s).'
+               % (coq_string(h['desel_cmp']), coq_Z(_char(h['desel_char'], 'deselection'))))
+    out.append('Definition sel_list_sep : Z := %s.' % coq_Z(_char(h['list_sep'], 'separator')))
+    out.append('Definition sel_auto_cmp : string := %s.' % coq_string(h['auto_cmp']))
+    out.append('Definition sel_cross_cmp : string := %s.' % coq_string(h['cross_cmp']))
+    for nm in ('ants_desel', 'ants_sel'):
+        out.append('Definition sel_%s : string * (string * string) := (%s, (%s, %s)).'
+                   % (nm, coq_string(h[nm + '_a']), coq_string(h[nm + '_bool']), coq_string(h[nm + '_b'])))
+    out.append('Definition sel_inputs_ops : string * (string * string) := (%s, (%s, %s)).'
+               % (coq_string(h['inputs_a']), coq_string(h['inputs_bool']), coq_string(h['inputs_b'])))
+    out.append('Definition sel_pol_single : list Z := [%s; %s].'
+               % (coq_Z(_char(h['pol_single_a'], 'pol')), coq_Z(_char(h['pol_single_b'], 'pol'))))
+    out.append('Definition sel_pol_repeat : Z := %s.' % coq_Z(_int(h['pol_repeat'], 'pol repeat')))
+    out.append('Definition sel_pol_nonempty : string * Z := (%s, %s).'
+               % (coq_string(h['pol_nonempty_cmp']), coq_Z(_int(h['pol_nonempty_bound'], 'pol'))))
+    out.append('Definition sel_pol_match : (string * Z) * (string * (string * Z)) := ((%s, %s), (%s, (%s, %s))).'
+               % (coq_string(h['pol_a_cmp']), coq_Z(_int(h['pol_a_index'], 'pol')), coq_string(h['pol_bool']),
+                  coq_string(h['pol_b_cmp']), coq_Z(_int(h['pol_b_index'], 'pol'))))
+
+
+ITEMS = [item_select_tables, item_select_decisions]
